@@ -200,6 +200,23 @@ func TestVerifCorruptBounded(t *testing.T) {
 			}
 		}
 	}
+	// a lagging node: its head lies inside the requested range. Whatever the
+	// plan, the step must fail or deliver the rows of every requested block
+	for _, pl := range plans {
+		for _, c := range [][2]uint64{{2, 0}, {3, 0}, {3, 1}} {
+			limit, seen := c[0], c[1]
+			nodeHead = pStart + seen
+			cases++
+			msgs := runSetN(t, ts, pl.mode, pl.set, limit, true)
+			nodeHead = 0
+			for _, m := range msgs {
+				nfail++
+				if nfail <= 12 {
+					fmt.Printf("BOUNDED-FAIL lagging node (head = first block + %d, %d blocks requested): accepted, but %s\n", seen, limit, m)
+				}
+			}
+		}
+	}
 	// thorough tier: every pair of corruptions on two different RPC methods
 	if os.Getenv("VERIF_TIER") == "thorough" {
 		all := corruptions()
